@@ -314,6 +314,18 @@ theorem uniLoop_cfg (ea : Bool) : ∀ (fuel : Nat) (c : Conn σ) (s : Stream) (r
               | (rw [← hc1]; exact this)
               | (rw [← hc1, ← handleControlFrame_cfg _ _ _ _ ‹_›]; exact this))
 
+theorem resumeStream_onlyH3 (cfg : Cfg) (hk : NoEscape cfg.k) (st : Stream) (q : σ) :
+    OnlyH3 (resumeStream o cfg st q) := by
+  intro e he
+  unfold resumeStream at he
+  dsimp only at he
+  repeat' (split at he)
+  all_goals first
+    | h3leaf
+    | (cases he; first
+        | exact resumeFrame_onlyH3 o _ hk.logDecode _ _ _ _ _ ‹_›
+        | exact recvReq_onlyH3 o _ hk _ _ _ _ _ ‹_›)
+
 theorem processUnblocked_onlyH3 : ∀ (ids : List Nat) (c : Conn σ) (_ : NoEscape c.cfg.k) (evs : List Event),
     OnlyH3 (processUnblocked o ids c evs) := by
   intro ids
@@ -322,14 +334,11 @@ theorem processUnblocked_onlyH3 : ∀ (ids : List Nat) (c : Conn σ) (_ : NoEsca
   | cons id ids ih =>
     intro c hk evs e he
     unfold processUnblocked at he
-    simp only at he
     repeat' (split at he)
     all_goals first
       | h3leaf
       | (have := hk.keyError; simp_all; done)
-      | (cases he; first
-          | exact resumeFrame_onlyH3 o _ hk.logDecode _ _ _ _ _ ‹_›
-          | exact recvReq_onlyH3 o _ hk _ _ _ _ _ ‹_›)
+      | (cases he; exact resumeStream_onlyH3 o _ hk _ _ _ ‹_›)
       | (refine ih _ ?_ _ _ he; exact hk)
 
 theorem recvUni_onlyH3 (c : Conn σ) (hk : NoEscape c.cfg.k) (s : Stream) (d : Bytes) (ea : Bool) :
